@@ -436,6 +436,9 @@ func (s *Session) commitTx(tx *txState) []RowChange {
 	var changes []RowChange
 	for tn, m := range tx.overlay {
 		t := s.e.tables[strings.ToUpper(tn)]
+		if t == nil {
+			continue // the table was dropped meanwhile (harness housekeeping)
+		}
 		for k, r := range m {
 			before := t.rows[k]
 			if r == nil {
